@@ -20,7 +20,7 @@ use std::rc::Rc;
 
 pub struct C05;
 
-pub const NT: usize = 16;
+pub const NT: usize = 40;
 
 #[derive(Clone, Debug, Serialize, Deserialize, PartialEq)]
 pub enum Case {
@@ -146,7 +146,7 @@ fn to_set<'a>(o: &'a Ontology, v: &[u8]) -> HpoSet<'a> {
 }
 
 fn check_sets(table: &[f32], pairs: &[(Vec<u8>, Vec<u8>)], stats: &mut Stats) -> CheckResult {
-    ensure!(table.len() == NT * NT, "harness/bad-case", "table must have 256 entries");
+    ensure!(table.len() == NT * NT, "harness/bad-case", "table must have NT*NT entries");
     let symmetric = (0..NT).all(|i| (0..NT).all(|j| table[i * NT + j].to_bits() == table[j * NT + i].to_bits()));
     FLAT.with(|o| {
         let tab = Table { t: Rc::new(table.to_vec()), calls: Rc::new(Cell::new(0)) };
@@ -218,6 +218,9 @@ fn check_sets(table: &[f32], pairs: &[(Vec<u8>, Vec<u8>)], stats: &mut Stats) ->
             if ia.is_empty() || ib.is_empty() {
                 stats.label("sets:empty");
             }
+            if ia.len() > 30 || ib.len() > 30 {
+                stats.label("sets:more-than-30-members");
+            }
         }
         if symmetric {
             stats.label("sets:symmetric-table");
@@ -256,7 +259,7 @@ fn strategy() -> BoxedStrategy<Case> {
             Case::Matrix { rows, cols, data }
         });
     let int_matrix = (0usize..=9, 0usize..=9).prop_map(|(rows, cols)| Case::IntMatrix { rows, cols });
-    let sets = (vec(value(), NT * NT), any::<bool>(), vec((vec(any::<u8>(), 0..=8), vec(any::<u8>(), 0..=8)), 1..=6)).prop_map(|(mut table, symmetric, pairs)| {
+    let sets = (vec(value(), NT * NT), any::<bool>(), vec((prop_oneof![12 => vec(any::<u8>(), 0..=8), 1 => vec(any::<u8>(), 40..=90)], prop_oneof![12 => vec(any::<u8>(), 0..=8), 1 => vec(any::<u8>(), 40..=90)]), 1..=6)).prop_map(|(mut table, symmetric, pairs)| {
         if symmetric {
             for i in 0..NT {
                 for j in 0..i {
@@ -274,19 +277,19 @@ impl Property for C05 {
         "C05"
     }
     fn rule(&self) -> String {
-        "Generated: (a) raw r x c matrices, r,c in 0..=8 plus 1x40 and 40x1, finite f32 entries drawn from few values per matrix (ties among maxima), through StandardCombiner::{FunSimAvg,FunSimMax,Bma}::calculate; integer matrices for rows()/cols()/dim()/len() against index arithmetic; (b) on a flat 16-term ontology: sequences of 1-6 pairs of term sets (sizes 0..=8) and a user-supplied Similarity that looks pairs up in a generated 16x16 table (asymmetric or symmetrised), through GroupSimilarity::calculate and HpoSet::similarity; (c) the same sequence through one CachedSimilarity per combiner (second visit, transposed pair) and term-level (a,b),(b,a),(a,b). Oracle: the three definitions evaluated in f64 on M[i][j] = T[A_i][B_j] (ascending ids), tolerance 1e-4; 0 for an empty side; argument-order independence for symmetric tables (1e-6); cached results bit-identical to uncached. evaluations = combiner evaluations. Non-trivial = non-square non-empty matrix whose row-max mean differs from its column-max mean, or a set pair of unequal non-zero sizes; distinct by hash of the case.".into()
+        "Generated: (a) raw r x c matrices, r,c in 0..=8 plus 1x40 and 40x1, finite f32 entries drawn from few values per matrix (ties among maxima), through StandardCombiner::{FunSimAvg,FunSimMax,Bma}::calculate; integer matrices for rows()/cols()/dim()/len() against index arithmetic; (b) on a flat 40-term ontology: sequences of 1-6 pairs of term sets (sizes 0..=8, occasionally 31-40 members) and a user-supplied Similarity that looks pairs up in a generated 40x40 table (asymmetric or symmetrised), through GroupSimilarity::calculate and HpoSet::similarity; (c) the same sequence through one CachedSimilarity per combiner (second visit, transposed pair) and term-level (a,b),(b,a),(a,b). Oracle: the three definitions evaluated in f64 on M[i][j] = T[A_i][B_j] (ascending ids), tolerance 1e-4; 0 for an empty side; argument-order independence for symmetric tables (1e-6); cached results bit-identical to uncached. evaluations = combiner evaluations. Non-trivial = non-square non-empty matrix whose row-max mean differs from its column-max mean, or a set pair of unequal non-zero sizes; distinct by hash of the case.".into()
     }
     fn assumptions(&self) -> Vec<String> {
         vec!["term similarities are finite (NaN entries are outside the domain: maxima are taken with '>')".into(), "f32 sums compared with f64 reference within 1e-4 relative".into()]
     }
     fn cases(&self, tier: Tier) -> u64 {
         match tier {
-            Tier::Quick => 1_200_000,
-            Tier::Thorough => 12_000_000,
+            Tier::Quick => 240_000,
+            Tier::Thorough => 3_000_000,
         }
     }
     fn required_labels(&self, _tier: Tier) -> Vec<&'static str> {
-        vec!["nontrivial", "matrix:rect-row!=col-means", "matrix:empty", "matrix:1x40", "int-matrix", "sets:unequal-sizes", "sets:empty", "sets:symmetric-table", "sets:asymmetric-table", "sets:cache-reused-over-several-pairs"]
+        vec!["nontrivial", "matrix:rect-row!=col-means", "matrix:empty", "matrix:1x40", "int-matrix", "sets:unequal-sizes", "sets:empty", "sets:more-than-30-members", "sets:symmetric-table", "sets:asymmetric-table", "sets:cache-reused-over-several-pairs"]
     }
     fn run_generated(&self, _tier: Tier, seed: u64, n: u64, stats: &mut Stats) -> Option<(Value, Failure)> {
         run_typed(strategy(), seed, n, stats, check)
